@@ -23,7 +23,7 @@ import time
 
 import numpy as np
 
-from vf.common import HELD, INCONCLUSIVE, VIOLATED, Run, case_hash, main_wrapper, run_pool, seed
+from vf.common import wall_budget, HELD, INCONCLUSIVE, VIOLATED, Run, case_hash, main_wrapper, run_pool, seed
 
 PID = "C15"
 REQ = {"recipe": {"b": "mass", "cell": "triangle"}}
@@ -263,7 +263,7 @@ def main(tier, replay=None):
     cases = cases_for(tier, s)
     if replay:
         cases = [json.load(open(replay))["replay"]["case"]]
-    results = run_pool("c15", cases, per_case_timeout=500, chunk=1, nproc=8, deadline=time.time() + (540 if tier == "quick" else 3300))
+    results = run_pool("c15", cases, per_case_timeout=500, chunk=1, nproc=8, deadline=time.time() + wall_budget(tier, 540, 3300))
     for r in results:
         run.add(r)
     run.require("builders_killed", 10 if not replay else 0)
